@@ -87,6 +87,16 @@ func RunCheck(p *Prop, tier string, seed int64, verifDir string) int {
 	os.MkdirAll(outDir, 0o755)
 	os.MkdirAll(filepath.Join(verifDir, "evidence"), 0o755)
 	cases := p.Cases(tier, seed)
+	if f := os.Getenv("VERIF_CASE_FILTER"); f != "" && os.Getenv("VERIF_OUT_SUFFIX") != "" {
+		// development runs only (tools/devcheck.sh): restrict to the cases whose name contains f
+		var sel []Case
+		for _, c := range cases {
+			if strings.Contains(c.Name, f) {
+				sel = append(sel, c)
+			}
+		}
+		cases = sel
+	}
 	workers := p.Workers
 	if workers == 0 {
 		workers = 16
